@@ -370,6 +370,7 @@ pub fn replay(ctx: &Ctx, kind: &str, params: &Value) -> Result<(), Fail> {
 			let _ = replay(ctx, kind, &p);
 		}
 	}
+	crate::rt::set_logging(params.get("logging").and_then(|l| l.as_bool()).unwrap_or(false));
 	if kind != "fuzz" {
 		warmup(warm_key_of(kind, params));
 	}
